@@ -33,7 +33,7 @@ type Gen struct {
 	// NoDupReinforce: never list one id twice in a VReinforce call (the intermediate count
 	// is a state the model does not record; matters only for crash images)
 	NoDupReinforce bool
-	Combos       [][2]string // allowed metric/precision pairs (nil = all valid)
+	Combos         [][2]string // allowed metric/precision pairs (nil = all valid)
 }
 
 var Vocab = []string{"alpha", "beta", "gamma", "delta", "red", "green", "running", "connected", "caffè", "città", "the", "not"}
